@@ -120,3 +120,12 @@ def canaries(tier, seed):
     r = run("quick", seed, mutant="latest_no_notify", only_validate=True)
     n = [v for v in r.violations if v["signature"].get("kind") != "premature-callback"]
     return [dict(name="mutant:latest_no_notify", detected=bool(n), rejected=len(n))]
+
+
+TRACE_MODULE = "AsyncLatestTrace"
+consts_of = lambda c: dict(NE=c['max_elems'], SyncCons=c['cons'][0] == 'sync', Legacy=False, CbOwns=False)
+
+
+def replay(v):
+    import sys as _s
+    return amod.replay_node(_s.modules[__name__], v)
